@@ -51,7 +51,8 @@ def c10():
         "level": "proof",
         "rule": "consistent (old, nominee) count vectors incl. old_n in {1,2,999,1000,1001}, "
                 "thresholds at the achieved statistic +-1 ulp, tolerances {0,0.05,1,10}, all six "
-                "criteria; plus moment-collision stream; each criterion object called twice in "
+                "criteria; plus moment-collision stream and big-moment stream (sum of squared counts next to 2^31, "
+                "2^32, 2^33), acceptance checked against the exact rational statistic; each criterion object called twice in "
                 "shuffled order (purity); non-trivial = distinct argument tuples",
         "trusted": COMMON_TRUST + [
             "translator /verif/translator/py2coq.py + Gen/NumpySem.v (Proofs/GenTie{Sim,Merges,Mem,Util,Mr}.v prove Gen = Model)",
@@ -92,7 +93,8 @@ HIST_TRUST = COMMON_TRUST + [
     "hand-written tree/estimator model (Model/Tree.v, Model/Birch.v) tied to bblean/bitbirch.py by "
     "differential execution only; Python buffer aliasing between old and new trees is exercised, not modelled",
     "translator-tied kernels: merge criteria, iSIM, centroid (Proofs/GenTieSim.v, GenTieMerges.v)"]
-HIST_RULE = ("random operation histories (fit in 4 input forms / failing fit / refine / recluster with "
+HIST_RULE = ("random operation histories (fit in 4 input forms / failing fit / refine from arrays, .npy paths and "
+             "sequences of paths / recluster with "
              "shuffle / set_merge / delete_internal_nodes / reset), 3-24 bits, branching 2-7, all six "
              "criteria, thresholds 0..1, noisy copies of 1-4 prototypes + zero/one/duplicate rows; "
              "model and implementation compared after every operation; non-trivial = distinct "
@@ -240,7 +242,8 @@ def c04():
         "level": "proof",
         "rule": "forms: one row sequence supplied as {packed,unpacked} x {ndarray,list,.npy path} x "
                 "integer dtypes, cut into 1-4 consecutive fit calls, and in another process with "
-                "another hash seed: all equal and equal to the model on the decoded sequence; "
+                "another hash seed: all equal and equal to the model on the decoded sequence; repeated runs after and "
+                "in between unrelated estimators being created, re-tuned and used in the same process; "
                 "mmap: .npy files on both sides of the 2 MiB release granularity, several row "
                 "widths/item sizes, consecutive files on one tree; every madvise(DONTNEED) argument "
                 "compared with Model/Mem.v and checked against file bounds and read cursor",
@@ -265,8 +268,9 @@ def c07():
         "replay": suite_c07.replay_c07,
         "level": "proof",
         "rule": HIST_RULE + "; split-seed choice on node contents with odd and even entry counts "
-                "and majority ties; legacy uint8/int64 variants on 2048-bit inputs (differential "
-                "testing, not proof)",
+                "and majority ties; legacy uint8/int64 variants on 2048-bit inputs, dense and sparse "
+                "criteria-separating ones (differential testing, not proof); reference procedure on inputs with "
+                "one family of 130..400 rows",
         "trusted": HIST_TRUST + ["bundled legacy implementations are compared by differential "
                                  "testing only (no theorem about bblean/_legacy)"],
         "assumptions": ["the reference procedure (Model/Spec.v) compares float64 Tanimoto values; "
@@ -290,7 +294,8 @@ def c17():
                 "all criterion names (+ an unknown one), merge-function objects, tolerances; observed "
                 "after every call: criterion, tolerance, threshold, branching factor, repr, and "
                 "accept/reject on probe arguments; non-trivial = distinct sequence with >= 1 call "
-                "after construction",
+                "after construction; reset: fit, re-configure (incl. branching factor), reset, re-configure, fit "
+                "again — clusters, centroids and the whole tree compared with a freshly constructed estimator",
         "trusted": COMMON_TRUST + ["hand-written Model/Config.v tied to BitBirch.__init__/set_merge by "
                                    "differential execution only"],
         "assumptions": ["the legacy module-global set_merge is modelled only as 'refuses instance-level "
@@ -341,7 +346,9 @@ def c18():
         "rule": "fitted states reached through the scikit-learn wrappers (packed and unpacked estimator, "
                 "compute_labels on/off, 1-3 incremental fit / partial_fit / fit_predict calls), all six "
                 "criteria; labels_, fit_predict, get_assignments, predict, transform (bit patterns) and "
-                "dump_assignments compared with Model/Labels.v and with the clusters directly",
+                "dump_assignments compared with Model/Labels.v and with the clusters directly; tall families (128..255 and "
+                "256+ members next to a small cluster); label-states: get_assignments (sorted / unsorted, "
+                "check_valid on/off) after every operation of refinement / re-clustering histories",
         "trusted": HIST_TRUST + ["SciPy's boolean Jaccard and sklearn.pairwise_distances(_argmin) "
                                  "(modelled as |a xor b|/|a or b| and first minimiser; checked, not proved)",
                                  "sklearn validation / metadata machinery is not modelled"],
@@ -375,8 +382,11 @@ def c16():
                 "order on real shared memory / a real directory vs Model/FpsGen.v",
         "trusted": COMMON_TRUST + ["RDKit (fp_of is an oracle), numpy Generator.shuffle (a permutation)",
                                    "translator for parse_num_per_batch (GenTieUtil.v)"],
-        "assumptions": ["multi-process filling: workers write disjoint row ranges / distinct files "
-                        "(checked by running 1 and 2 processes, not proved)"],
+        "assumptions": ["multi-process filling: in the model (Model/FpsGen.v) every interleaving of the workers' "
+                        "single-row writes gives the API result (C16_single_file_any_interleaving); that the real "
+                        "workers perform exactly those writes is checked by running their __call__ on real shared "
+                        "memory in arbitrary order (suite fps-gen) and by 1..3 real processes (suite fps-cli), not proved",
+                        "a fresh shared-memory block reads as zeros; np.delete / nonzero as modelled"],
     }
 
 
@@ -399,7 +409,9 @@ def c19():
                 "min_size 0-3, member lists in ascending and in adversarial orders; indices on the non-singleton "
                 "clusters incl. 2 (quick) / 8 (thorough) tall cases (column sums beyond uint8; clusters below "
                 "256 members whose sums together exceed 255) under EVERY cluster order, packed vs unpacked, 2 "
-                "random permutations of clusters and rows for the other cases",
+                "random permutations of clusters and rows for the other cases; file sequences whose given order is not "
+                "lexicographic (descending names, unpadded part numbers, several directories), paths rewritten "
+                "from case to case, clusterings with families of 128..400 members sharing scaffold bits",
         "trusted": COMMON_TRUST + ["NumPy's summation order in np.dot / np.sum of float arrays is not "
                                    "modelled: CHI/DBI are compared with the exact (rational) combination "
                                    "of the model's bit-exact terms within 1e-9 relative"],
@@ -425,7 +437,9 @@ def c15():
                 "dirty output dir, copy vs symlink, packed vs unpacked, n-features (incl. non-multiples of 8), "
                 "single file vs directory, bin size, midsection rounds, initial-refine mode, split-after-mid, "
                 "memory monitor on/off; one big-cluster multiround case (two dtype groups per file, bin size "
-                "> number of inputs); every run compared with the Python API called directly",
+                "> number of inputs); `bb run` option sets chosen so that every pair of coarse option factors occurs; "
+                "every run compared with the Python API called directly (clusters, centroids, the saved tree) and "
+                "the calls made on the estimator with the plan of Model/Cli.v",
         "trusted": COMMON_TRUST + ["typer argument parsing and console output are not modelled",
                                    "hand model Model/Cli.v of the CLI's own decision logic, tied by the suite"],
         "assumptions": ["the hidden --recluster-shuffle option is switched off in the comparison (with its "
@@ -451,7 +465,9 @@ def c14():
                 "(same / changed threshold / fewer files) is made in the same directory; final files are "
                 "compared with a fresh directory and the whole directory with Model/Multiround.v run on "
                 "the leftovers; multiround-files: whole output directories vs the model from an empty "
-                "directory; non-trivial = each (configuration, crash point) evaluated",
+                "directory; worker-crash: failures INSIDE pool workers (truncated input file, failing write of a "
+                "round file; fork / forkserver, 2-3 processes): the run must fail, leave no final file, and a "
+                "re-run must equal a fresh one; non-trivial = each (configuration, crash point) evaluated",
         "trusted": COMMON_TRUST + ["POSIX rename atomicity; a crash is modelled as stopping between two file "
                                    "actions (a torn single write leaves a file whose name is purged by the next run)",
                                    "translator tie for file names/globs: Gen/GMr.v + Proofs/GenTieMr.v"],
